@@ -102,7 +102,9 @@ def run_config(V, rng, tier, run_label, MV, AV, BV, CV, MAPS, flagsets):
                                'transformers': 'minimal' if 'transform' in flags and 'C' in focus else 'none',
                                'explode_multivalue_features': 'm' if 'multi' in flags else 'False',
                                'subfeature_mapping': mapping or 'False', 'interaction_order': 2 if 'interact' in flags else 1,
-                               'include_noise_baseline_features': 'True' if 'noise' in flags else 'False', 'combination_number_upper_bound': 10 ** 6}})
+                               'include_noise_baseline_features': 'True' if 'noise' in flags else 'False', 'combination_number_upper_bound': 10 ** 6,
+                               # an option of the SCORING stage: it must not change what is constructed
+                               'mi_stratified_sampling_ratio': rng.choice([1.0, 1.0, 0.5, 0.1])}})
     chunk = 400
     jobs = [{'op': 'batch_features', 'items': items[i:i + chunk]} for i in range(0, len(items), chunk)]
     got = PC.pipe_eval(jobs, modules=['pipe_ops'])
@@ -223,7 +225,8 @@ def main():
         rows = [[a_, b_, str((i_ + j_) % 2)] for i_, a_ in enumerate(va) for j_, b_ in enumerate(vb)]
         rows += [rng.choice(rows) for _ in range(17)]
         rng.shuffle(rows)
-        big_items.append({'columns': ['fa', 'fb', 'label'], 'rows': rows, 'args': {'heuristic': 'MI-numba-randomized', 'label_column': 'label', 'subfeature_mapping': 'fa<->fb;fa->fb'}})
+        big_items.append({'columns': ['fa', 'fb', 'label'], 'rows': rows, 'args': {'heuristic': 'MI-numba-randomized', 'label_column': 'label', 'subfeature_mapping': 'fa<->fb;fa->fb',
+                                   'mi_stratified_sampling_ratio': 0.5 if len(big_items) % 2 else 1.0}})       # a scoring-stage option: no effect on construction
     bg = PC.pipe_eval([{'op': 'batch_features', 'items': [it_]} for it_ in big_items], modules=['pipe_ops'])
     for it_, r_ in zip(big_items, bg):
         key = f'large-alphabet: {len(set(r[0] for r in it_["rows"]))} x {len(set(r[1] for r in it_["rows"]))} values, {len(it_["rows"])} rows, mapping fa<->fb;fa->fb'
@@ -262,7 +265,8 @@ def main():
         vals_ = ['a', 'b', 'a,b', 'c-a', '', 'b,c', 'c']
         rows = [[rng.choice(vals_), rng.choice(vals_), str(i_ % 2)] for i_ in range(14)]
         order_ = rng.choice(['m1;m2', 'm2;m1'])
-        mv_items.append({'columns': ['m1', 'm2', 'label'], 'rows': rows, 'args': {'heuristic': 'MI-numba-randomized', 'label_column': 'label', 'explode_multivalue_features': order_}})
+        mv_items.append({'columns': ['m1', 'm2', 'label'], 'rows': rows, 'args': {'heuristic': 'MI-numba-randomized', 'label_column': 'label', 'explode_multivalue_features': order_,
+                                   'mi_stratified_sampling_ratio': [1.0, 0.5, 0.25][k_ % 3]}})
     mg = PC.pipe_eval([{'op': 'batch_features', 'items': mv_items}], modules=['pipe_ops'])[0]
     if mg is None or 'ok' not in mg:
         V.violation('raises:two-multivalue', f'compute_batch_ranking failed: {PC.failure_text(mg)}', {'items': mv_items[:1]})
@@ -271,6 +275,9 @@ def main():
             key = f'two multi-value features {it_["args"]["explode_multivalue_features"]} rows={it_["rows"]}'
             if 'error' in ob:
                 V.violation('raises:' + key, ob['error'], it_)
+                continue
+            if ob['columns'][:3] != ['m1', 'm2', 'label'] or any(ob['values'][c_] != [r_[ci_] for r_ in it_['rows']] for ci_, c_ in enumerate(('m1', 'm2', 'label'))):
+                V.violation('additive:' + key, f'original columns/values/row order changed (sampling ratio {it_["args"]["mi_stratified_sampling_ratio"]})', it_)
                 continue
             newcols = {c_: ob['values'][c_] for c_ in ob['columns'][3:]}
             for fi, fn in enumerate(('m1', 'm2')):
